@@ -15,7 +15,7 @@ import shutil
 import sys
 
 from vf import faults as F
-from vf.runner import REPO_LIB, TESTS, CaseTimeout, HarnessError, scratch_dir, short, time_limit
+from vf.runner import REPO_LIB, TESTS, CaseTimeout, HarnessError, scratch_dir, short
 
 MARK = F.MARK
 BAIT = b"BAIT FILE OUTSIDE THE REQUESTED LOCATION - MUST NOT CHANGE\n"
@@ -143,7 +143,7 @@ def guarded(env, allowed_roots, fn, cli=False, limit=180):
     obs = env.obs
     obs.arm(allowed_roots)
     try:
-        with time_limit(limit):
+        with F.cpu_limit(limit, CaseTimeout):
             o.result = fn()
     except CaseTimeout:
         o.timeout = True
